@@ -1,5 +1,5 @@
 SPECIFICATION Spec
-CONSTANTS Scenarios <- Scn
+CONSTANTS Scenarios <- Scn  MutDestroyAfterHandover = FALSE
 INVARIANTS NoAccessAfterDelete
 VIEW View
 CHECK_DEADLOCK TRUE
